@@ -57,6 +57,7 @@ def diag_class(msg):
     m = re.sub(r"ExprId \{[^}]*\}", "<expr>", m)
     m = re.sub(r"TVar\(\d+\)|TypeVar\(\d+\)", "<tvar>", m)
     m = re.sub(r"\b[0-9a-f]{16,}\b", "<hash>", m)
+    m = re.sub(r"/[^\s:()]+", "<path>", m)
     return m[:90]
 
 
@@ -74,6 +75,7 @@ def run(ctx):
     n_proj = n_both_ok = n_both_err = n_orders = n_beh = n_beh_ok = n_iface = n_iface_same = 0
     n_text_equal = n_text_differs = 0
     kinds = collections.Counter()
+    tpl_tags = collections.Counter()
     tags = collections.Counter()
     order_hist = collections.Counter()
     samples, distinct = [], set()
@@ -86,6 +88,8 @@ def run(ctx):
         proj = d.get("project", ["?", "", "", "", ""])
         kinds[proj[0]] += 1
         for t in (proj[1].split(",") if len(proj) > 1 and proj[1] else []):
+            if proj[0] in ("template", "random-kinds"):
+                tpl_tags[t] += 1
             if t.startswith("shape=") or t in ("generics", "ill-typed", "multi-file"):
                 tags[t] += 1
         payload = {"id": pid, "src": d.get("src", "")[:6000], "whole": d["whole"][:3], "orders": [s[:6] for s in d["sep"]][:8]}
@@ -93,13 +97,15 @@ def run(ctx):
         if w[0] == "panic":
             ctx.report({"oracle": "crash", "way": "whole"}, f"whole-program compilation panics: {w[1][:160]}", payload)
             continue
-        if "graph" in d:
-            # discovery / topological sort failed: the whole-program path runs the same code first
-            g = d["graph"]
-            if w[0] == "ok" or (w[0] == "err" and w[1] != g[1]):
-                ctx.report({"oracle": "acceptance", "whole": w[0], "separate": "graph-" + g[0]},
-                           f"package discovery fails ({g[1:3]}) but the whole-program compile says {w[:2]}", payload)
+        if "graph" in d and d["graph"][0] == "panic":
+            ctx.report({"oracle": "crash", "way": "discovery"}, f"package discovery panics: {d['graph'][1][:160]}", payload)
             continue
+        if "graph" in d and w[0] == "ok":
+            # discovery / topological sort failed, yet the whole-program path, which runs the same code first, accepts
+            ctx.report({"oracle": "acceptance", "whole": "ok", "separate": "graph-err"},
+                       f"package discovery fails ({d['graph'][1:3]}) but the whole-program compile accepts", payload)
+            continue
+        # (when discovery fails the separate builds were run in an order read off the `import` lines of the sources)
         if not d["sep"]:
             ctx.broken_ties.append(("harness", f"{pid}: no separate build was attempted"))
             continue
@@ -215,7 +221,7 @@ def run(ctx):
         "rule": "one evaluation = one project built separately in one topological order (check + build of every package, artefacts written to and "
                 "re-read from JSON, link) next to its whole-program compile; distinct = distinct (stdout, separate Go size) of accepted projects + "
                 "rejected projects on which both ways agree",
-        "projects": n_proj, "projects_by_kind": dict(kinds), "generator_tags": dict(tags), "orders_per_project(sampled/total)": dict(order_hist),
+        "projects": n_proj, "projects_by_kind": dict(kinds), "template_and_kind_tags": dict(tpl_tags), "generator_tags": dict(tags), "orders_per_project(sampled/total)": dict(order_hist),
         "accepted_both_ways": n_both_ok, "rejected_both_ways_same_stage": n_both_err,
         "behaviour_comparisons(distinct separate Go per project)": {"checked": n_beh, "same_as_whole(Go.Sem, Sem, Go.Check)": n_beh_ok},
         "go_text": {"separate_equal_to_whole": n_text_equal, "differs(only order/temporaries, see tie)": n_text_differs},
@@ -229,6 +235,9 @@ def run(ctx):
     ctx.assumptions += [
         "behaviour is judged under Sem / Go.Sem (no Go toolchain); goroutines under the eager schedule",
         "run_alpha_invariant_partial covers Core without closure expressions; for programs with closures the equality of behaviour is observed, not proved",
+        "templates (harness/src/c14.rs::templates): types-only / trait-only / extern-only / empty packages, nesting depth 60 / 200 (1000 in the thorough tier) "
+        "of lets, ifs and parentheses, the same function / type / trait name in two files of a package, self-imports and import cycles (the separate builds "
+        "then run in an order read off the import lines), a main.gom that is not the first file; nested calls only to depth 10 (compile time doubles per level, both ways)",
         "topological orders: all of them in the thorough tier (<= 120), a seeded sample of 6 in the quick tier",
     ]
     tb = ["Lean 4 kernel", "axioms: " + ",".join(ctx.proof["axioms"] or ["none"]), "Sem / Go.Sem / Go.Check", "harness/src/c14.rs, c13.rs (project generator), dump.rs, godump.rs",
